@@ -1118,7 +1118,10 @@ func (p *parser) parsePrimary() (Expr, error) {
 			return &Ident{Parts: []string{t.Text}}, nil
 		}
 		switch up {
-		case "CAST", "EXTRACT", "SUBSTRING", "TRIM", "POSITION", "DATEADD", "DATE_ADD", "DATEDIFF", "DATE_DIFF", "EXISTS", "CASE":
+		case "CAST", "EXTRACT", "SUBSTRING", "TRIM", "POSITION":
+			// functions with an SQL special syntax next to the ordinary comma call
+			return p.parseSpecialCall(up)
+		case "DATEADD", "DATE_ADD", "DATESUB", "DATE_SUB", "DATEDIFF", "DATE_DIFF", "TIMESTAMPADD", "TIMESTAMP_ADD", "TIMESTAMPSUB", "TIMESTAMP_SUB", "EXISTS", "CASE":
 			return nil, p.unsupported("special-syntax function %s", up)
 		case "SELECT", "WITH":
 			return nil, p.errf("unexpected %s", up)
@@ -1303,3 +1306,101 @@ func (p *parser) parseCall() (Expr, error) {
 	}
 	return c, nil
 }
+
+// parseSpecialCall handles the functions ClickHouse accepts both as an ordinary call and in
+// an SQL special syntax (src/Parsers/ExpressionElementParsers.cpp, ParserFunction special
+// cases): CAST(x AS T) | CAST(x, 'T'); POSITION(needle IN haystack) | position(haystack,
+// needle[, start]); SUBSTRING(s FROM o [FOR l]) | substring(s, o[, l]); TRIM([LEADING |
+// TRAILING | BOTH] chars FROM s) | trim(s); EXTRACT(part FROM date) (not modelled) |
+// extract(haystack, pattern). The special forms are rewritten to the ordinary functions.
+func (p *parser) parseSpecialCall(up string) (Expr, error) {
+	save := p.pos
+	p.pos += 2 // name (
+	switch up {
+	case "CAST":
+		x, err := p.parseExpr()
+		if err != nil {
+			return nil, err
+		}
+		var ty string
+		switch {
+		case p.acceptKw("AS"):
+			if ty, err = p.parseTypeName(); err != nil {
+				return nil, err
+			}
+		case p.acceptOp(","):
+			t := p.peek()
+			if t.Kind != TokString {
+				return nil, p.unsupported("CAST with a non-literal type")
+			}
+			p.pos++
+			ty = t.Val
+		default:
+			return nil, p.errf("CAST: expected AS or ','")
+		}
+		if err := p.expectOp(")"); err != nil {
+			return nil, err
+		}
+		return p.parsePostfixNone(&Cast{X: x, Type: ty})
+	case "POSITION":
+		if a, err := p.parseConcat(); err == nil && p.acceptKw("IN") {
+			b, err := p.parseConcat()
+			if err != nil {
+				return nil, err
+			}
+			if err := p.expectOp(")"); err != nil {
+				return nil, err
+			}
+			return &Call{Name: "position", Args: []Expr{b, a}}, nil
+		}
+	case "SUBSTRING":
+		if s, err := p.parseExpr(); err == nil && p.acceptKw("FROM") {
+			o, err := p.parseExpr()
+			if err != nil {
+				return nil, err
+			}
+			args := []Expr{s, o}
+			if p.acceptKw("FOR") {
+				l, err := p.parseExpr()
+				if err != nil {
+					return nil, err
+				}
+				args = append(args, l)
+			}
+			if err := p.expectOp(")"); err != nil {
+				return nil, err
+			}
+			return &Call{Name: "substring", Args: args}, nil
+		}
+	case "TRIM":
+		for _, mode := range []string{"LEADING", "TRAILING", "BOTH"} {
+			if p.acceptKw(mode) {
+				chars, err := p.parseConcat()
+				if err != nil {
+					return nil, err
+				}
+				if err := p.expectKw("FROM"); err != nil {
+					return nil, err
+				}
+				s, err := p.parseExpr()
+				if err != nil {
+					return nil, err
+				}
+				if err := p.expectOp(")"); err != nil {
+					return nil, err
+				}
+				return &Call{Name: "__trimChars", Args: []Expr{s, chars, &Lit{V: mode}}}, nil
+			}
+		}
+	case "EXTRACT":
+		if p.peek().Kind == TokBareWord && p.isKwAt(1, "FROM") {
+			return nil, p.unsupported("EXTRACT(part FROM date)")
+		}
+	}
+	p.pos = save
+	return p.parseCall()
+}
+
+// parsePostfixNone exists so that special forms return through one place (postfix operators
+// are applied by the caller, parseUnary).
+func (p *parser) parsePostfixNone(e Expr) (Expr, error) { return e, nil }
